@@ -243,6 +243,9 @@ fn shrink_case(p: &PropDef, o: &Opts, start: &Done) -> Done {
     let mut seen: HashSet<u64> = HashSet::new();
     seen.insert(hash_input(&best.case.input));
     loop {
+        // a case of 10^5 tokens is not shrunk: the per-element candidates of a property's shrinker are copies of the whole
+        // case, and tens of thousands of them do not fit in memory; it is reported as found
+        if best.case.input.len() > 40_000 { break; }
         let cands: Vec<Vec<String>> = (p.shrink)(&best.case.input).into_iter().filter(|c| !seen.contains(&hash_input(c))).collect();
         if cands.is_empty() || budget == 0 { break; }
         let take = cands.len().min(budget).min(300);
